@@ -11,6 +11,16 @@ from ..core import Clause, Violation, require, jdump
 from .. import gens
 from .. import gens_c10 as g
 
+# Generator classes of the cross-pollination round (seeded/INDEX.md, DESIGN 8.3) and where they live here:
+#   A result ledger ................ clause history (Ledger: every model / object handed out, re-judged bit for bit after every step)
+#   B caller-side mutation ......... labels caller_in / caller_out / keep_kw in value, box, atoms, system, elastic; clause history
+#                                    (min / mout steps); inputs bit-identical after every call in every clause
+#   C storage and input dtypes ..... labels dt*, atype_dt*, pos_dt*, prop_dt*, readonly, form_tuple (layouts lay_* were there)
+#   D working-unit configuration ... cfgW / cfgR in every clause since the first version; reset_units / rebuild steps in history
+#   E near-threshold values ........ tiny_* (cells), near_face (coordinates), near_sym* (elastic tensors)
+#   F many decades in one call ..... decades, decades_unit, row_alone (value), prop_decades (atoms, system)
+#   G exactly structured inputs .... sym, sym_diag, sym_perm, lowertri_neg, lefthanded, exact_rel, relabelled
+#   H enumerated option combinations clause options
 RULE = ("a value (rank 0-4, int/float, Python or numpy form, optional error), a Box (cells as C01), an Atoms or a System "
         "(1-8 atoms, 1-3 types, symbols/masses missing, short, with holes; int/float/string properties of rank 1-3, unit "
         "per property from 28 unit strings, None or 'scaled') or an ElasticConstants (positive definite tensors of 7 "
@@ -23,7 +33,23 @@ RULE = ("a value (rank 0-4, int/float, Python or numpy form, optional error), a 
         "or inside a System, and has had its reciprocal vectors read / a Cartesian-to-relative conversion / a box-scaled "
         "System.model done; afterwards its reciprocal vectors, both position maps and a box-scaled System.model are compared "
         "with own numpy arithmetic on generated points.  Non-trivial: JSON or XML text AND (a 'scaled' property, or a property/value of rank >= 2, "
-        "or writing and reading configurations differ)")
+        "or writing and reading configurations differ).  "
+        "Generator classes carried over from the other properties: STORAGE - value, error, pos, atype and property arrays also as "
+        "float32 / float16 / big-endian floats (judged as the exact float64 image of the array handed in), int8 ... uint64 / "
+        "big-endian / bool integers over the whole range of the type, numpy scalars of these types, read-only arrays, tuples; "
+        "DECADES - one array whose elements span 8 to 18 orders of magnitude, every element judged relative to itself, one row "
+        "handed in alone stored bit for bit as inside the array; NEAR-THRESHOLD - tilts of 1e-12 ... 1e-3 of the cell, relative "
+        "coordinates 1e-12 ... 1e-3 off a face / an integer / a half, elastic tensors 1e-12 ... 1e-3 off the symmetry they are "
+        "normalised to; STRUCTURED - exact signed axis permutations of the cell, lower-triangular cells with negative entries, "
+        "renamed and reversed cell vectors, left-handed cells, coordinates exactly on faces, elastic tensors with renamed axes; "
+        "CALLER - after every call what was handed in (arrays, objects, keyword arguments, the model read) is bit for bit what it "
+        "was, then the caller overwrites it in place / through the setters, and the array or model it was handed out, and the "
+        "earlier answers must not move; HISTORY - 4-11 steps of one caller in one process (write value / Box / System / "
+        "ElasticConstants models, read any of them into new or existing objects, reset_units with or without re-expressing the "
+        "objects, overwrite inputs, overwrite outputs) with a ledger of every model and object handed out, judged bit for bit "
+        "after every later step and read once more at the end; OPTIONS - on one tilted system every combination and order of "
+        "position unit (absent, None, angstrom, nm, scaled) x two vector properties (absent, unit, scaled) x prop_unit or "
+        "prop_name+unit x box_unit x route and encoding, enumerated")
 ASSUMPTIONS = [
     "numericalunits attributes are the unit table; uc.reset_units applies a configuration (decided by C09; choices "
     "without length, the open C09 finding, are not generated)",
@@ -33,15 +59,25 @@ ASSUMPTIONS = [
     "list from a scalar (shape (1,) may come back as ()), and reads number-like or constant-like strings as numbers "
     "(generated strings start with a letter that excludes inf/nan/true/false/none)",
     "json float repr round-trips exactly",
+    "numpy's promotion rules are not atomman's: a float32 / float16 array divided by a Python float stays in its type, so a unit "
+    "conversion of such an array is judged to 4 eps of the storage type (float16 only without unit: most unit factors are not "
+    "float16 numbers); a list holding 2**63 or more next to a smaller integer is read by numpy as float64 (uint64 values stop at "
+    "the int64 maximum)",
+    "Atoms keeps the arrays it is given (documented, safecopy=False): the caller's overwriting of an input array is done on the "
+    "object's own array as well; ElasticConstants' Cij setter zeroes terms up to 1e-9 of the largest one (modelled like Box's)",
 ]
 LEVEL_TEXT = ("Generated round trips of unit-carrying values, boxes, atoms, systems and elastic tensors through the "
               "in-memory model, JSON and XML text (and dump/load of system_model to text, stream, file), written and read "
               "under different working units; every stored-with-unit quantity is compared as a physical value against "
               "the generating numbers, unit-less ones exactly.  Arrays are given in C, transposed, Fortran, axis-swapped and "
               "strided memory layouts; a Box that receives a model has another cell and used reciprocal vectors beforehand, and "
-              "its reciprocal vectors, position maps and box-scaled storage are compared with own arithmetic afterwards.")
+              "its reciprocal vectors, position maps and box-scaled storage are compared with own arithmetic afterwards.  Narrow, "
+              "unsigned, big-endian, bool and read-only storage, arrays spanning many decades, almost and exactly structured cells, "
+              "coordinates and tensors, caller-side overwriting of everything handed in or out, histories of one caller with a ledger "
+              "of all results across reset_units, and the enumerated option combinations of System.model are part of the search.")
 TECHNIQUE = ("round-trip against generating data; own unit factors from numericalunits; own s.V+o and (x-o).inv(V) for scaled "
-             "storage and for a reloaded Box's derived quantities; memory-layout variation of the inputs")
+             "storage and for a reloaded Box's derived quantities; memory-layout and storage-type variation of the inputs; "
+             "bit-for-bit ledger of results and inputs over caller histories; enumerated option combinations")
 WALL = {'quick': 75, 'thorough': 600}
 
 EPS = 2.3e-16
@@ -1502,40 +1538,62 @@ CLAUSES = [
     Clause('value', oracle_value, g.value_cases, quick=12000, thorough=180000,
            min_share={'nt': 0.3, 'cfg_differ': 0.2, 'enc_xml': 0.15, 'enc_json': 0.15, 'rank3': 0.08, 'rank4': 0.06, 'unit': 0.2,
                       'error': 0.08, 'kind_i': 0.08, 'nonC': 0.15, 'nonC_nonF': 0.04, 'lay_T': 0.07, 'lay_F': 0.06, 'lay_S': 0.02,
-                      'lay_SF': 0.02, 'lay_X': 0.015, 'error_nonC': 0.03},
+                      'lay_SF': 0.02, 'lay_X': 0.015, 'error_nonC': 0.03,
+                      # classes carried over from the other properties (half of the smallest share seen at seeds 1, 2)
+                      'caller_in': 0.08, 'caller_out': 0.19, 'decades': 0.075, 'decades_unit': 0.039, 'dt': 0.15, 'dt_float': 0.08, 'dt_int': 0.065,
+                      'dt_limit': 0.034, 'dt_f4': 0.05, 'dt_f2': 0.012, 'dt_bigendian': 0.05, 'dt_unit': 0.06, 'dt_nounit': 0.085, 'readonly': 0.14,
+                      'row_alone': 0.27, 'form_tuple': 0.05},
            desc='uc.model -> (dict | JSON | XML) -> uc.value_unit / error_unit: shape, dtype kind, physical value; write and read '
                 'under different working units; value and error arrays in C / transposed / Fortran / axis-swapped / strided layouts'),
     Clause('box', oracle_box, g.box_cases, quick=3500, thorough=50000,
            min_share={'nt': 0.2, 'cfg_differ': 0.3, 'origin': 0.2, 'rotated': 0.2, 'fresh': 0.15, 'prior_used': 0.2,
                       'prior_cell_differs': 0.25, 'prior_recip': 0.1, 'prior_c2r': 0.1, 'prior_scaled': 0.05, 'in_system': 0.1,
-                      'prior_unused': 0.04},
+                      'prior_unused': 0.04,
+                      # classes carried over from the other properties (half of the smallest share seen at seeds 1, 2)
+                      'caller_in': 0.18, 'caller_out': 0.028, 'lefthanded': 0.21, 'lowertri_neg': 0.145, 'sym': 0.1, 'sym_diag': 0.065, 'sym_perm': 0.034,
+                      'tiny_tilt': 0.068, 'tiny_cleaned': 0.045, 'tiny_1e-9_1e-5': 0.03, 'tiny_1e-5_1e-3': 0.025, 'near_face': 0.32},
            desc='Box.model(length_unit) -> Box(model=) / Box.model(model=) into a Box (alone or held by a System) that had another '
                 'cell and whose reciprocal vectors / position maps / box-scaled storage were used: cell and origin as physical '
                 'lengths, then reciprocal vectors, both position maps and a box-scaled System.model against own arithmetic'),
     Clause('atoms', oracle_atoms, g.atoms_cases, quick=6500, thorough=100000,
            min_share={'nt': 0.25, 'natoms1': 0.08, 'prop_s': 0.12, 'prop_i': 0.1, 'proprank3': 0.12, 'unit_prop': 0.12, 'subset': 0.05,
                       'nonC': 0.3, 'pos_nonC': 0.2, 'prop_nonC': 0.18, 'prop_nonC_nounit': 0.1, 'nonC_nonF': 0.12, 'lay_T': 0.15,
-                      'lay_F': 0.13, 'lay_S': 0.06, 'lay_SF': 0.06, 'lay_X': 0.07},
+                      'lay_F': 0.13, 'lay_S': 0.06, 'lay_SF': 0.06, 'lay_X': 0.07,
+                      # classes carried over from the other properties (half of the smallest share seen at seeds 1, 2)
+                      'atype_dt': 0.23, 'pos_dt_f4': 0.07, 'prop_dt_float': 0.1, 'prop_dt_int': 0.045, 'dt_bigendian': 0.13, 'dt_limit': 0.019,
+                      'prop_decades': 0.019, 'readonly': 0.3, 'caller_in': 0.13, 'caller_out': 0.032, 'keep_kw': 0.04},
            desc='Atoms.model(prop_name/unit | prop_unit | defaults) -> Atoms(model=): every listed property, shapes, dtype kinds, units'),
     Clause('system', oracle_system, g.system_cases, quick=12500, thorough=220000,
            min_share={'nt': 0.25, 'pos_scaled': 0.1, 'scaled_prop': 0.06, 'mass_first_none': 0.04, 'symbols_holes': 0.08,
                       'masses_holes': 0.1, 'route_dump': 0.15, 'route_model': 0.15, 'route_dump_f': 0.04, 'route_dump_path': 0.03,
                       'enc_xml': 0.15, 'cfg_differ': 0.15, 'natoms1': 0.07, 'proprank3': 0.12, 'prop_s': 0.1,
                       'nonC': 0.3, 'pos_nonC': 0.25, 'prop_nonC': 0.2, 'prop_nonC_nounit': 0.12, 'nonC_nonF': 0.15, 'lay_T': 0.15,
-                      'lay_F': 0.13, 'lay_S': 0.07, 'lay_SF': 0.08, 'lay_X': 0.1},
+                      'lay_F': 0.13, 'lay_S': 0.07, 'lay_SF': 0.08, 'lay_X': 0.1,
+                      # classes carried over from the other properties (half of the smallest share seen at seeds 1, 2)
+                      'atype_dt': 0.24, 'pos_dt_f4': 0.08, 'prop_dt_float': 0.09, 'prop_dt_int': 0.044, 'prop_dt_scaled': 0.018, 'dt_limit': 0.022,
+                      'dt_bigendian': 0.139, 'prop_decades': 0.019, 'readonly': 0.32, 'caller_in': 0.146, 'caller_out': 0.026, 'keep_kw': 0.056,
+                      'lefthanded': 0.18, 'lowertri_neg': 0.13, 'sym': 0.09, 'sym_diag': 0.056, 'sym_perm': 0.033, 'tiny_tilt': 0.073,
+                      'tiny_cleaned': 0.048, 'tiny_1e-9_1e-5': 0.035, 'tiny_1e-5_1e-3': 0.024, 'near_face': 0.33},
            desc='System.model/System(model=) and dump/load system_model (text, stream, path): cell, origin, pbc, symbols, masses, '
                 'every property incl. box-scaled storage, written and read under different working units'),
     Clause('elastic', oracle_elastic, g.elastic_cases, quick=3500, thorough=50000,
            min_share={'nt': 0.35, 'unit': 0.25, 'cfg_differ': 0.3, 'norm_family': 0.25, 'fam_isotropic': 0.05, 'fam_rhombohedral': 0.05,
-                      'fam_triclinic': 0.05},
+                      'fam_triclinic': 0.05,
+                      # classes carried over from the other properties (half of the smallest share seen at seeds 1, 2)
+                      'near_sym': 0.127, 'near_sym_fine': 0.043, 'near_sym_coarse': 0.084, 'near_sym_cleaned': 0.025, 'relabelled': 0.135,
+                      'caller_in': 0.22, 'caller_out': 0.032},
            desc='ElasticConstants.model(unit, crystal_system) -> ElasticConstants(model=) / .model(model=)'),
     Clause('history', oracle_history, g.history_cases, quick=2000, thorough=40000,
-           min_share={},
+           min_share={# classes carried over from the other properties (half of the smallest share seen at seeds 1, 2)
+                      'nt': 0.34, 'ledger': 0.5, 'ledger_mixed': 0.31, 'caller_in': 0.18, 'caller_out_model': 0.15, 'caller_out_object': 0.077,
+                      'read_after_reset': 0.18, 'read_after_caller_in': 0.1, 'rebuild': 0.13, 'reset_units': 0.19, 'recv_existing': 0.067,
+                      'r_system': 0.13, 'r_value': 0.15, 'r_box': 0.06, 'r_elastic': 0.05, 'w_scaled': 0.14},
            desc='one caller, one process: models of a value, a Box, a System and an ElasticConstants written, read back (new objects and '
                 'existing ones), reset_units in between, the caller overwriting what it handed in and what it was handed out; every '
                 'model and object handed out is judged again bit for bit after every later step, every input after every call'),
     Clause('options', oracle_options, enumerate=g.option_cases, quick=5000, thorough=50000,
-           min_share={},
+           min_share={# classes carried over from the other properties (half of the smallest share seen at seeds 1, 2)
+                      'nt': 0.33, 'scaled_without_pos': 0.024, 'scaled_2': 0.1, 'scaled_3': 0.014, 'pos_absent': 0.043, 'scaled_prop_pos_with_unit': 0.2},
            desc='enumerated: every combination and order of position unit (absent / None / angstrom / nm / scaled), two vector '
                 'properties (absent / unit / scaled), prop_unit or prop_name+unit, box_unit, route and encoding on one tilted system'),
 ]
